@@ -152,7 +152,7 @@ Proof.
   intros Ht. unfold switch_true_lhs, switch_true_rhs. simpl. rewrite (Ht h).
   revert h. induction cases as [|[c body] r IH]; intros h; [reflexivity|].
   destruct (evalS en c h) as [[[vc|] h1]|]; auto.
-  destruct vc as [| | | |[]| |]; simpl; auto.
+  destruct vc as [| | | |[]| | | |]; simpl; auto.
 Qed.
 
 (* ---- valSwap: not an equivalence ---- *)
